@@ -428,13 +428,42 @@ def rcancel_receive_is_cancel_safe(ctx):
 
 
 
+
+def r13_channel_is_the_only_buffer(ctx):
+    """`the stream ends when the consumer falls more than the configured buffer behind`: lag is detected by the bounded
+    channel being full when the read task try_sends, so nothing between the channel and the consumer may hold
+    notifications: SubscriptionReceiver / Subscription have no collection or payload-typed field besides the channel, and
+    SubscriptionReceiver::poll_next hands out the result of one mpsc poll_recv (never poll_recv_many / try_recv loops into
+    a private queue - items parked there free channel slots while still unread)."""
+    F, R = ctx.F, ctx.R
+    tr = ctx.tracer(follow_callers=False, follow_fields=False, inline_calls=False)
+    n = 0
+    for adt_name, allowed in (("jsonrpsee_core::client::SubscriptionReceiver", r"^tokio::sync::mpsc::(bounded::)?Receiver<|SubscriptionLagged$"),
+                              ("jsonrpsee_core::client::Subscription", r"^bool$|mpsc::(bounded::)?Sender<.*FrontToBack>$|client::SubscriptionReceiver$|^std::option::Option<jsonrpsee_core::client::SubscriptionKind>$|^std::marker::PhantomData<")):
+        adt = F.adt(adt_name)
+        if adt is None:
+            raise AnchorLost("ADT %s" % adt_name)
+        for v in adt["variants"]:
+            for f in v["fields"]:
+                n += 1
+                R.check(bool(re.search(allowed, f["ty"])), "C05.R13", "%s.%s:not-a-buffer" % (adt_name.split("::")[-1], f["n"]), "%s.%s (%s) holds no notifications" % (adt_name.split("::")[-1], f["n"], f["ty"][:60]), "%s has a field `%s: %s` besides its channel: notifications parked there have left the bounded channel, so the read task no longer sees a consumer that is more than the configured buffer behind (no Lagged, no unsubscribe)" % (adt_name.split("::")[-1], f["n"], f["ty"][:80]), None)
+    b = F.one(r"^<jsonrpsee_core::client::SubscriptionReceiver as futures_util::Stream>::poll_next$")
+    R.fn(b)
+    takes = b.calls_to(r"mpsc::(bounded::)?Receiver::<.*>::(poll_recv|poll_recv_many|try_recv|recv_many|recv|blocking_recv)$")
+    kinds = sorted((c.name() or "").split("::")[-1] for c in takes)
+    lv = tr.origins(b, {"cp": {"l": 0}})
+    direct = bool(lv) and all(l.kind == "call" and re.search(r"Receiver::<.*>::poll_recv$", l.detail.get("callee") or "") for l in lv)
+    R.check(kinds == ["poll_recv"] and direct, "C05.R13", "receiver:one-item-per-poll", "poll_next returns the result of one poll_recv", "SubscriptionReceiver::poll_next does not hand out the result of a single poll_recv (channel operations: %s): items are taken out of the bounded channel ahead of the consumer" % kinds, "%s:%d" % (b.file, b.lo))
+    R.floor("C05.R13", n, 6, "fields of the client-side subscription types")
+
+
 def rkeys_manager_keys_not_derived(ctx):
     """ids are matched exactly"""
     from .common import manager_keys_not_derived
     manager_keys_not_derived(ctx, "C05.KEYS")
 
 
-RULES = [r1_classifier_agreement, r2_routing, r3_lag_and_close, r4_single_unsubscribe, r5_close_messages_are_not_lossy, r6_refused_insert_is_pure, r7_classifiers_are_plain, r8_client_builder_fields, r9_lagged_is_reported_as_lagged, r10_sub_ids_spelled_alike, r11_response_attempt_unconditional, r12_stream_ends_only_when_channel_ends, rarr_every_element, rcancel_receive_is_cancel_safe, rkeys_manager_keys_not_derived]
+RULES = [r1_classifier_agreement, r2_routing, r3_lag_and_close, r4_single_unsubscribe, r5_close_messages_are_not_lossy, r6_refused_insert_is_pure, r7_classifiers_are_plain, r8_client_builder_fields, r9_lagged_is_reported_as_lagged, r10_sub_ids_spelled_alike, r11_response_attempt_unconditional, r12_stream_ends_only_when_channel_ends, r13_channel_is_the_only_buffer, rarr_every_element, rcancel_receive_is_cancel_safe, rkeys_manager_keys_not_derived]
 
 LEVEL_TEXT = (
     "Structural necessary conditions of the client's notification demultiplexing decided from the type-checked program: "
